@@ -311,3 +311,47 @@ Definition sl_in_cs (p : spc) : bool := match p with SInCS _ _ => true | _ => fa
 
 (* all pieces of one event, in order *)
 Definition block (ev : evid) (n : nat) : list frag := map (fun k => (ev, k)) (seq 0 n).
+
+(* ============================================================================================== *)
+(* the write-ready wake-up: connEventHandler.handleEvent, onWriteReady, the writer parked on       *)
+(* onWriteReadyCh after EAGAIN                                                                      *)
+(* ============================================================================================== *)
+(* one event reported by epoll_wait for the connection's fd: any combination of the three bits the fd is
+   registered for (edge-triggered: this may be the only report of that readiness change) *)
+Record epev := { ev_rdhup : bool; ev_in : bool; ev_out : bool }.
+
+Inductive hcall := CRemoteClose | CReadReady | CWriteReady.
+
+(* handleEvent: EPOLLRDHUP -> onRemoteClose and nothing else; otherwise EVERY bit of the event is processed:
+   EPOLLIN -> onReadReady, then EPOLLOUT -> onWriteReady (three independent tests, not alternatives) *)
+Definition handle_event (e : epev) : list hcall :=
+  if ev_rdhup e then [CRemoteClose]
+  else (if ev_in e then [CReadReady] else []) ++ (if ev_out e then [CWriteReady] else []).
+
+(* the writer side: write()/doWritev() got EAGAIN and executes <-c.onWriteReadyCh *)
+Record wake := {
+  wparked : bool;       (* a writer is blocked in the channel receive *)
+  wtoken : bool;        (* onWriteReadyCh (capacity 1) holds a value *)
+  wclosed : bool }.     (* isClose = 1 and the channel is closed (a receive returns at once) *)
+
+(* the writer reaches `<-c.onWriteReadyCh` *)
+Definition wake_wait (w : wake) : wake :=
+  if wclosed w then w
+  else if wtoken w then {| wparked := false; wtoken := false; wclosed := false |}
+  else {| wparked := true; wtoken := false; wclosed := false |}.
+
+Definition wake_call (w : wake) (c : hcall) : wake :=
+  match c with
+  | CReadReady => w                                   (* onReadReady does not touch the write side *)
+  | CWriteReady =>                                    (* onWriteReady: if isClose == 0 { asyncNotify(onWriteReadyCh) } *)
+    if wclosed w then w
+    else if wparked w then {| wparked := false; wtoken := false; wclosed := false |}   (* handed to the waiting writer *)
+    else {| wparked := false; wtoken := true; wclosed := false |}                     (* buffered (or already there) *)
+  | CRemoteClose =>                                   (* onRemoteClose -> deferredClose: isClose = 1; close(onWriteReadyCh) *)
+    {| wparked := false; wtoken := wtoken w; wclosed := true |}
+  end.
+
+Definition wake_event (w : wake) (e : epev) : wake := fold_left wake_call (handle_event e) w.
+
+(* can the writer go on (it is not blocked in the receive)? *)
+Definition runnable (w : wake) : bool := negb (wparked w).
